@@ -41,6 +41,15 @@
 #include "stir/listmode/ListTime.h"
 #include "stir/listmode/CListEventCylindricalScannerWithDiscreteDetectors.h"
 #include "stir/ProjDataInfoCylindricalNoArcCorr.h"
+#include "stir/ProjDataInfoGenericNoArcCorr.h"
+#include "stir/ProjDataInfoBlocksOnCylindricalNoArcCorr.h"
+#include "stir/ProjDataInterfile.h"
+#include "stir/IO/read_from_file.h"
+#include "stir/listmode/CListModeDataSAFIR.h"
+#include "stir/listmode/CListRecordSAFIR.h"
+#include "stir/LORCoordinates.h"
+#include <cstring>
+#include <fstream>
 #include "stir/ProjDataInMemory.h"
 #include "stir/ProjData.h"
 #include "stir/SegmentByView.h"
@@ -58,6 +67,8 @@
 #include "stir/recon_buildblock/BinNormalisation.h"
 #include "stir/recon_buildblock/TrivialBinNormalisation.h"
 #include "stir/recon_buildblock/BinNormalisationFromProjData.h"
+#include "stir/recon_buildblock/ChainedBinNormalisation.h"
+#include "stir/RegisteredParsingObject.h"
 #include "stir/DiscretisedDensity.h"
 #include "stir/Viewgram.h"
 #include <algorithm>
@@ -124,7 +135,12 @@ struct SynTime : public ListTime
   }
 };
 
-struct SynRecord : public CListRecord
+struct SynRecordBase : public CListRecord
+{
+  virtual void load(const Rec& r) = 0;
+};
+
+struct SynRecord : public SynRecordBase
 {
   explicit SynRecord(const shared_ptr<const ProjDataInfo>& pdi)
       : e(pdi)
@@ -138,7 +154,7 @@ struct SynRecord : public CListRecord
   const ListEvent& event() const override { return e; }
   ListTime& time() override { return t; }
   const ListTime& time() const override { return t; }
-  void load(const Rec& r)
+  void load(const Rec& r) override
   {
     istime = r.is_time;
     if (r.is_time)
@@ -153,16 +169,104 @@ struct SynRecord : public CListRecord
   }
 };
 
+// Other kinds of events (family 4):
+//   1: an event of a cylindrical scanner that only knows its LOR — the library's CListEventScannerWithDiscreteDetectors<
+//      ProjDataInfoCylindricalNoArcCorr>::get_LOR() — and leaves get_bin() to ListEvent::get_bin (ListEvent.cxx: the LOR path,
+//      proj_data_info.get_bin(get_LOR()));
+//   2: an event of a BlocksOnCylindrical scanner with detector indices: get_bin() as CListEventScannerWithDiscreteDetectors<
+//      ProjDataInfoGenericNoArcCorr>::get_bin() does it (ProjDataInfoGenericNoArcCorr::get_bin_for_det_pos_pair; value 0/1).  The
+//      library's template itself cannot be instantiated with ProjDataInfoGenericNoArcCorr: its get_LOR() calls
+//      find_cartesian_coordinates_given_scanner_coordinates with 7 arguments, the Generic class only has the 6-argument one;
+//   3: an event of a BlocksOnCylindrical scanner that only knows its LOR (crystal coordinates of the scanner's detector map, as
+//      CListEventSAFIR::get_LOR()), get_bin() left to ListEvent::get_bin.
+struct AnyEvent : public CListEvent
+{
+  int kind = 1;
+  shared_ptr<const ProjDataInfo> pdi;
+  shared_ptr<SynEvent> cyl;
+  DetectionPositionPair<> dp;
+  bool prompt = true;
+  AnyEvent(int k, const shared_ptr<const ProjDataInfo>& p)
+      : kind(k),
+        pdi(p)
+  {
+    if (kind == 1)
+      cyl.reset(new SynEvent(p));
+  }
+  bool is_prompt() const override { return prompt; }
+  bool is_valid_template(const ProjDataInfo&) const override { return true; }
+  LORAs2Points<float> get_LOR() const override
+  {
+    if (kind == 1)
+      return cyl->get_LOR();
+    LORAs2Points<float> lor;
+    lor.p1() = pdi->get_scanner_ptr()->get_coordinate_for_det_pos(dp.pos1());
+    lor.p2() = pdi->get_scanner_ptr()->get_coordinate_for_det_pos(dp.pos2());
+    return lor;
+  }
+  void get_bin(Bin& bin, const ProjDataInfo& p) const override
+  {
+    if (kind != 2)
+      {
+        ListEvent::get_bin(bin, p);
+        return;
+      }
+    if (dynamic_cast<const ProjDataInfoGenericNoArcCorr&>(p).get_bin_for_det_pos_pair(bin, dp) == Succeeded::no)
+      bin.set_bin_value(0);
+    else
+      bin.set_bin_value(1);
+  }
+};
+
+struct AnyRecord : public SynRecordBase
+{
+  AnyRecord(int kind, const shared_ptr<const ProjDataInfo>& pdi)
+      : e(kind, pdi)
+  {}
+  bool istime = false;
+  SynTime t;
+  AnyEvent e;
+  bool is_time() const override { return istime; }
+  bool is_event() const override { return !istime; }
+  ListEvent& event() override { return e; }
+  const ListEvent& event() const override { return e; }
+  ListTime& time() override { return t; }
+  const ListTime& time() const override { return t; }
+  void load(const Rec& r) override
+  {
+    istime = r.is_time;
+    if (r.is_time)
+      t.ms = r.ms;
+    else
+      {
+        e.prompt = r.prompt;
+        e.dp = DetectionPositionPair<>(DetectionPosition<>(r.d1, r.r1, 0), DetectionPosition<>(r.d2, r.r2, 0), r.tp);
+        if (e.cyl)
+          e.cyl->dp = e.dp;
+      }
+  }
+};
+
+static shared_ptr<SynRecordBase>
+make_syn_record(int kind, const shared_ptr<const ProjDataInfo>& pdi)
+{
+  if (kind == 0)
+    return shared_ptr<SynRecordBase>(new SynRecord(pdi));
+  return shared_ptr<SynRecordBase>(new AnyRecord(kind, pdi));
+}
+
 struct SynLM : public ListModeData
 {
   std::vector<Rec> recs;
   bool delayeds = true;
+  int kind = 0; // kind of the events (0: SynEvent, else AnyEvent)
   mutable std::size_t pos = 0;
   mutable long reads = 0;
   std::vector<std::size_t> saved;
-  SynLM(const shared_ptr<const ProjDataInfo>& pdi, const std::vector<Rec>& r, bool has_del)
+  SynLM(const shared_ptr<const ProjDataInfo>& pdi, const std::vector<Rec>& r, bool has_del, int event_kind = 0)
       : recs(r),
-        delayeds(has_del)
+        delayeds(has_del),
+        kind(event_kind)
   {
     shared_ptr<ExamInfo> ei(new ExamInfo);
     ei->imaging_modality = ImagingModality::PT;
@@ -192,17 +296,66 @@ struct SynLM : public ListModeData
 protected:
   shared_ptr<ListRecord> get_empty_record_helper_sptr() const override
   {
-    return shared_ptr<ListRecord>(new SynRecord(this->get_proj_data_info_sptr()));
+    return make_syn_record(kind, this->get_proj_data_info_sptr());
   }
   Succeeded get_next(ListRecord& r) const override
   {
     if (pos >= recs.size())
       return Succeeded::no;
-    static_cast<SynRecord&>(r).load(recs[pos++]);
+    static_cast<SynRecordBase&>(r).load(recs[pos++]);
     ++reads;
     return Succeeded::yes;
   }
 };
+
+// A bin normalisation with get_bin_efficiency() (the member LmToProjData calls; BinNormalisationFromProjData and
+// BinNormalisationFromAttenuationImage do not implement it): the efficiency of a bin is a table value determined by `salt`
+// (hash_eff below), every `low`-th bin (low > 0) has an unusable efficiency (0, 1e-12 or negative).  Registered, so that it is
+// given to LmToProjData through the class's own keys "Bin Normalisation type for pre-/post-normalisation".
+static float
+hash_eff(int salt, int low, int seg, int view, int ax, int tang, int tof)
+{
+  uint64_t h = 0x9E3779B97F4A7C15ULL * static_cast<uint64_t>(salt + 1);
+  const int c[5] = { seg, view, ax, tang, tof };
+  for (int k = 0; k < 5; ++k)
+    {
+      h ^= static_cast<uint64_t>(static_cast<int64_t>(c[k]) + 1000);
+      h *= 0xBF58476D1CE4E5B9ULL;
+      h ^= h >> 29;
+    }
+  if (low > 0 && (h >> 8) % static_cast<uint64_t>(low) == 0)
+    {
+      const int k = static_cast<int>((h >> 40) % 3);
+      return k == 0 ? 0.F : (k == 1 ? 1e-12F : -0.5F);
+    }
+  return 0.3F + static_cast<float>((h >> 16) % 1000) / 370.F;
+}
+
+struct HashNorm : public RegisteredParsingObject<HashNorm, BinNormalisation>
+{
+  static const char* const registered_name;
+  int salt = 0, low = 0;
+  HashNorm() { set_defaults(); }
+  void set_defaults() override
+  {
+    BinNormalisation::set_defaults();
+    salt = 0;
+    low = 0;
+  }
+  void initialise_keymap() override
+  {
+    this->parser.add_start_key("verif hash Bin Normalisation Parameters");
+    this->parser.add_key("salt", &salt);
+    this->parser.add_key("low", &low);
+    this->parser.add_stop_key("End verif hash Bin Normalisation Parameters");
+  }
+  float get_bin_efficiency(const Bin& b) const override
+  {
+    return hash_eff(salt, low, b.segment_num(), b.view_num(), b.axial_pos_num(), b.tangential_pos_num(), b.timing_pos_num());
+  }
+};
+const char* const HashNorm::registered_name = "verif hash";
+static HashNorm::RegisterIt hash_norm_registration;
 
 // LmToProjData with the file-reading part of post_processing() switched off, so that the class's own
 // keymap can be used (through the public parse(std::istream&)) for the keys that have no setter.
@@ -211,6 +364,7 @@ protected:
 struct Lm2PD : public LmToProjData
 {
   bool post_processing() override { return false; }
+  shared_ptr<ListModeData> input() const { return this->lm_data_ptr; }
   bool capture = false;
   shared_ptr<const ExamInfo> capture_exam_info;
   std::vector<shared_ptr<ProjData>> captured;
@@ -227,6 +381,7 @@ struct Lm2PD : public LmToProjData
 // ---------------------------------------------------------------------------------------------
 typedef std::tuple<int, int, int, int, int> Key; // tof, seg, view, ax, tang  (print order)
 typedef std::map<Key, long> Hist;
+typedef std::map<Key, float> HistF; // the stored floats (normalised histograms)
 
 static std::string
 fmt_hist(const Hist& h)
@@ -249,7 +404,7 @@ fmt_hist(const Hist& h)
 
 // read every bin of a projection data set; non-integral values are reported as an error token
 static bool
-read_hist(const ProjData& pd, Hist& h)
+read_hist(const ProjData& pd, Hist& h, HistF* hf = nullptr)
 {
   bool integral = true;
   for (int tof = pd.get_min_tof_pos_num(); tof <= pd.get_max_tof_pos_num(); ++tof)
@@ -266,6 +421,8 @@ read_hist(const ProjData& pd, Hist& h)
                     if (x != std::floor(x))
                       integral = false;
                     h[Key(tof, seg, v, a, t)] += std::lround(x);
+                    if (hf)
+                      (*hf)[Key(tof, seg, v, a, t)] = x;
                   }
               }
       }
@@ -282,6 +439,13 @@ struct RunCfg
   int in_memory = 0;             // 0: Interfile output per frame (read back); 1: set_output_projdata_sptr (last frame only);
                                  // 2: one ProjDataInMemory per frame through the start_new_time_frame() hook
   std::vector<std::pair<long, long>> frames; // ms
+  // normalisation (keys "Bin Normalisation type for pre-/post-normalisation", "do pre normalisation"):
+  int norm = 0;                              // 0: none (defaults)  1: post-normalisation  2: pre-normalisation
+  int salt1 = 0, salt2 = -1, low = 0;        // HashNorm(salt1, low), chained with HashNorm(salt2, 0) if salt2 >= 0
+  // how the stream is delivered (not part of the run line: the model sees the decoded stream)
+  int lm_kind = 0;     // kind of synthetic events (see AnyEvent)
+  std::string lm_file; // non-empty: a real list-mode file, given to LmToProjData::set_input_data(filename)
+  std::string lm_safir; // non-empty: a SAFIR list-mode data file, opened with CListModeDataSAFIR(filename, proj_data_info)
 };
 
 struct RunResult
@@ -290,8 +454,10 @@ struct RunResult
   long last_ms = 0;
   int segs_in_memory = 0;
   std::vector<Hist> frames;
+  std::vector<HistF> framesF;
   bool integral = true;
   long reads = 0;
+  long rewinds = 0;
 };
 
 static std::string g_tmpdir;
@@ -311,7 +477,9 @@ run_impl(const shared_ptr<ProjDataInfo>& lm_pdi,
   std::vector<std::string> files;
   try
     {
-      shared_ptr<SynLM> lm(new SynLM(lm_pdi, recs, has_delayeds));
+      shared_ptr<SynLM> lm;
+      if (c.lm_file.empty() && c.lm_safir.empty())
+        lm.reset(new SynLM(lm_pdi, recs, has_delayeds, c.lm_kind));
       Lm2PD conv;
       // keys without setter: through the object's own keymap
       {
@@ -338,12 +506,41 @@ run_impl(const shared_ptr<ProjDataInfo>& lm_pdi,
             std::fclose(f);
             par << "frame_definition file := " << fdef << "\n";
           }
+        if (c.norm != 0)
+          {
+            const char* which = c.norm == 2 ? "pre" : "post";
+            auto hash_block = [&](int salt, int low) {
+              par << "verif hash Bin Normalisation Parameters:=\n salt := " << salt << "\n low := " << low
+                  << "\nEnd verif hash Bin Normalisation Parameters:=\n";
+            };
+            if (c.salt2 < 0)
+              {
+                par << "Bin Normalisation type for " << which << "-normalisation := verif hash\n";
+                hash_block(c.salt1, c.low);
+              }
+            else
+              {
+                par << "Bin Normalisation type for " << which << "-normalisation := Chained\n";
+                par << "Chained Bin Normalisation Parameters:=\n Bin Normalisation to apply first := verif hash\n";
+                hash_block(c.salt1, c.low);
+                par << " Bin Normalisation to apply second := verif hash\n";
+                hash_block(c.salt2, 0);
+                par << "End Chained Bin Normalisation Parameters:=\n";
+              }
+            if (c.norm == 2)
+              par << "do pre normalisation := 1\n";
+          }
         par << "END:=\n";
         std::istringstream in(par.str());
         if (!conv.parse(in))
           throw std::runtime_error("parse");
       }
-      conv.set_input_data(lm);
+      if (lm)
+        conv.set_input_data(lm);
+      else if (!c.lm_safir.empty())
+        conv.set_input_data(shared_ptr<ExamData>(new CListModeDataSAFIR<CListRecordSAFIR<CListEventDataSAFIR>>(c.lm_safir, lm_pdi)));
+      else
+        conv.set_input_data(c.lm_file); // read_from_file<ListModeData>
       conv.set_template_proj_data_info_sptr(tpl);
       conv.set_output_filename_prefix(prefix);
       conv.set_store_prompts(c.storeP);
@@ -369,11 +566,11 @@ run_impl(const shared_ptr<ProjDataInfo>& lm_pdi,
       if (c.in_memory == 2)
         {
           conv.capture = true;
-          conv.capture_exam_info = lm->get_exam_info_sptr();
+          conv.capture_exam_info = conv.input()->get_exam_info_sptr();
         }
       if (c.in_memory == 1)
         {
-          mem.reset(new ProjDataInMemory(lm->get_exam_info_sptr(), conv.get_template_proj_data_info_sptr()->create_shared_clone()));
+          mem.reset(new ProjDataInMemory(conv.input()->get_exam_info_sptr(), conv.get_template_proj_data_info_sptr()->create_shared_clone()));
           conv.set_output_projdata_sptr(mem);
         }
       for (std::size_t k = 1; k <= nframes; ++k)
@@ -383,22 +580,25 @@ run_impl(const shared_ptr<ProjDataInfo>& lm_pdi,
         }
       conv.process_data();
       res.last_ms = std::lround(conv.get_last_processed_lm_rel_time() * 1000.);
-      res.reads = lm->reads;
+      res.reads = lm ? lm->reads : 0;
       if (c.in_memory == 2)
         {
           for (auto& p : conv.captured)
             {
               Hist h;
-              if (!read_hist(*p, h))
+              HistF hf;
+              if (!read_hist(*p, h, &hf))
                 res.integral = false;
               res.frames.push_back(h);
+              res.framesF.push_back(hf);
             }
         }
       else if (c.in_memory == 1)
         {
           // "will only store data from the last defined time frame"
           res.frames.resize(nframes);
-          res.integral = read_hist(*mem, res.frames[nframes - 1]);
+          res.framesF.resize(nframes);
+          res.integral = read_hist(*mem, res.frames[nframes - 1], &res.framesF[nframes - 1]);
           if (out_projdata)
             *out_projdata = mem;
         }
@@ -408,9 +608,11 @@ run_impl(const shared_ptr<ProjDataInfo>& lm_pdi,
             {
               shared_ptr<ProjData> pd = ProjData::read_from_file(prefix + "_f" + std::to_string(k) + "g1d0b0.hs");
               Hist h;
-              if (!read_hist(*pd, h))
+              HistF hf;
+              if (!read_hist(*pd, h, &hf))
                 res.integral = false;
               res.frames.push_back(h);
+              res.framesF.push_back(hf);
             }
         }
     }
@@ -451,7 +653,7 @@ struct Decoded
 };
 
 static Decoded
-decode_independent(const ProjDataInfoCylindricalNoArcCorr& t, const Rec& r)
+decode_independent(const ProjDataInfo& t, const Rec& r)
 {
   Decoded d;
   Bin bin;
@@ -466,7 +668,18 @@ decode_independent(const ProjDataInfoCylindricalNoArcCorr& t, const Rec& r)
   else
     {
       const DetectionPositionPair<> dp(DetectionPosition<>(r.d1, r.r1, 0), DetectionPosition<>(r.d2, r.r2, 0), r.tp);
-      if (t.get_bin_for_det_pos_pair(bin, dp) != Succeeded::yes)
+      // "the bin that the data geometry assigns to the event's detector pair and TOF index"
+      if (auto cyl = dynamic_cast<const ProjDataInfoCylindricalNoArcCorr*>(&t))
+        {
+          if (cyl->get_bin_for_det_pos_pair(bin, dp) != Succeeded::yes)
+            return d;
+        }
+      else if (auto gen = dynamic_cast<const ProjDataInfoGenericNoArcCorr*>(&t))
+        {
+          if (gen->get_bin_for_det_pos_pair(bin, dp) != Succeeded::yes)
+            return d;
+        }
+      else
         return d;
     }
   // "inside the data": template ranges
@@ -497,7 +710,7 @@ increment_of(const Rec& r, bool storeP, bool storeD)
 
 // histogram of the events whose preceding time mark lies in [s,e) (ms); all events if !use_window
 static Hist
-expected_window(const ProjDataInfoCylindricalNoArcCorr& t, const std::vector<Rec>& recs, bool use_window, long s, long e, bool storeP, bool storeD)
+expected_window(const ProjDataInfo& t, const std::vector<Rec>& recs, bool use_window, long s, long e, bool storeP, bool storeD)
 {
   Hist h;
   long cur = 0;
@@ -523,7 +736,7 @@ expected_window(const ProjDataInfoCylindricalNoArcCorr& t, const std::vector<Rec
 // num_events_to_store = n (> 0), no frames: events are stored until the stored total (prompts - delayeds, or
 // the number of stored events when only one kind is stored) reaches n
 static Hist
-expected_num_events(const ProjDataInfoCylindricalNoArcCorr& t, const std::vector<Rec>& recs, long n, bool storeP, bool storeD)
+expected_num_events(const ProjDataInfo& t, const std::vector<Rec>& recs, long n, bool storeP, bool storeD)
 {
   Hist h;
   long total = 0;
@@ -660,10 +873,11 @@ run_line(const RunCfg& c)
 }
 
 static std::string
-stream_line(const ProjDataInfo& tpl, const shared_ptr<ProjDataInfo>& lm_pdi, const std::vector<Rec>& recs)
+stream_line(const ProjDataInfo& tpl, const shared_ptr<ProjDataInfo>& lm_pdi, const std::vector<Rec>& recs, int kind = 0)
 {
   // bins as the REAL decoder returns them for the template (LmToProjData::get_bin_from_event == event.get_bin)
-  SynRecord rec(lm_pdi);
+  shared_ptr<SynRecordBase> rec_sptr = make_syn_record(kind, lm_pdi);
+  SynRecordBase& rec = *rec_sptr;
   std::ostringstream s;
   s << "stream";
   for (auto& r : recs)
@@ -746,7 +960,7 @@ do_run(const Case& cs, const RunCfg& c, bool oracle, const std::string& what)
     }
   if (!oracle)
     return r;
-  const ProjDataInfoCylindricalNoArcCorr& t = dynamic_cast<const ProjDataInfoCylindricalNoArcCorr&>(*tpl_after);
+  const ProjDataInfo& t = *tpl_after;
   {
     // "maximum absolute segment number to process": the output has exactly the segments -m..m, m = min(requested, template)
     const int m = c.max_seg_proc == -1 ? cs.tpl->get_max_segment_num() : std::min(c.max_seg_proc, cs.tpl->get_max_segment_num());
@@ -1979,6 +2193,1254 @@ run_family(vh::Rng& rng, bool thorough)
 }
 } // namespace lmo
 
+// =============================================================================================
+// FAMILY 3 — pre- and post-normalisation in LmToProjData (get_bin_from_event with do_pre_normalisation,
+//   do_post_normalisation, get_compression_count; LmToProjData.cxx:485-587)
+//   The normalisation objects are given through the class's own keys ("Bin Normalisation type for pre-normalisation" /
+//   "... post-normalisation", "do pre normalisation"): HashNorm above, alone or inside the library's ChainedBinNormalisation.
+//   ops  : cfg tpl / cfg norm <pre|post> / cfg cc (compression counts of the real geometry) / cfg eff (efficiencies of the
+//          real normalisation object at the bins that occur) / stream (pre: every event with the number of its uncompressed
+//          bin and the efficiency the real object returns for it) / runw <as run>  -> the stored floats (hex)
+//   oracle: every stored value == sum over the events of the frame of increment / (efficiency x compression count)
+//          (pre-normalisation: efficiency of the event's bin in the uncompressed geometry, compression count of the output
+//          bin counted independently over ring pairs and views) resp. increment / efficiency of the output bin
+//          (post-normalisation), events whose efficiency is unusable (< 1e-10) or that the uncompressed geometry does not
+//          hold add nothing; tolerance 4(n+3) 2^-24 sum|terms|.  Batch sizes give bitwise the same floats; frames of a
+//          partition add up to the whole interval (tolerance).
+// =============================================================================================
+namespace nrm
+{
+static const double U24 = 1. / 16777216.;
+
+static shared_ptr<Scanner>
+make_scanner_nb(int N, int R, int max_tof_bins, int nonarc)
+{
+  // as vh::make_scanner, with the given max_num_non_arccorrected_bins (the tangential size of the uncompressed geometry
+  // that LmToProjData::set_up builds for pre-normalisation)
+  shared_ptr<Scanner> s(new Scanner(Scanner::User_defined_scanner, std::string("verif_scanner"), N, R, nonarc, N / 2 - 1 > 0 ? N / 2 - 1 : 1,
+                                    100.F + N / 4.F, 5.F, 4.F, 2.F, 0.F, 1, 1, R, N, 1, 1, 1, 0.1F, 511.F, static_cast<short>(max_tof_bins),
+                                    max_tof_bins > 0 ? 100.F : -1.F, max_tof_bins > 0 ? 400.F : -1.F, "Cylindrical"));
+  return s;
+}
+
+struct W
+{
+  double v = 0, mag = 0;
+  long n = 0;
+};
+typedef std::map<Key, W> HistW;
+
+struct Ctx
+{
+  Case cs;
+  int N = 8, R = 1;
+  shared_ptr<ProjDataInfo> unc;                 // uncompressed geometry, built as LmToProjData::set_up does
+  std::map<Key, int> unc_ids;                   // numbering of the uncompressed bins that occur
+  std::map<std::pair<int, int>, long> ringpairs; // (segment, axial pos) -> number of ring pairs, counted over all ring pairs
+  std::map<int, long> viewcount;                // view -> number of uncompressed views, counted over all uncompressed views
+};
+
+static double
+table_eff(const RunCfg& c, int seg, int view, int ax, int tang, int tof)
+{
+  double e = hash_eff(c.salt1, c.low, seg, view, ax, tang, tof);
+  if (c.salt2 >= 0)
+    e *= hash_eff(c.salt2, 0, seg, view, ax, tang, tof);
+  return e;
+}
+
+static shared_ptr<BinNormalisation>
+make_norm_obj(const RunCfg& c)
+{
+  shared_ptr<HashNorm> a(new HashNorm);
+  a->salt = c.salt1;
+  a->low = c.low;
+  if (c.salt2 < 0)
+    return a;
+  shared_ptr<HashNorm> b(new HashNorm);
+  b->salt = c.salt2;
+  return shared_ptr<BinNormalisation>(new ChainedBinNormalisation(a, b));
+}
+
+// independent count of the uncompressed (ring pair, view) combinations of every output sinogram / view
+static void
+count_compression(Ctx& x, const ProjDataInfoCylindricalNoArcCorr& t)
+{
+  x.ringpairs.clear();
+  x.viewcount.clear();
+  for (int ra = 0; ra < x.R; ++ra)
+    for (int rb = 0; rb < x.R; ++rb)
+      {
+        int seg = 0, ax = 0;
+        if (t.get_segment_axial_pos_num_for_ring_pair(seg, ax, ra, rb) == Succeeded::yes)
+          x.ringpairs[std::make_pair(seg, ax)]++;
+      }
+  const ProjDataInfoCylindricalNoArcCorr& u = dynamic_cast<const ProjDataInfoCylindricalNoArcCorr&>(*x.unc);
+  for (int vu = u.get_min_view_num(); vu <= u.get_max_view_num(); ++vu)
+    {
+      int d1 = 0, d2 = 0, v = 0, tp = 0;
+      u.get_det_num_pair_for_view_tangential_pos_num(d1, d2, vu, 0);
+      t.get_view_tangential_pos_num_for_det_num_pair(v, tp, d1, d2);
+      x.viewcount[v]++;
+    }
+}
+
+struct EvW
+{
+  bool valid = false;
+  Key key;
+  double w = 0;
+};
+
+// what one event adds, by the property's reading (quirks = false) or as the unrepaired code does (quirks = true)
+static EvW
+decode_w(const Ctx& x, const ProjDataInfoCylindricalNoArcCorr& t, const Rec& r, const RunCfg& c, bool quirks, bool* quirk_input)
+{
+  EvW e;
+  if (c.norm == 1)
+    {
+      const Decoded d = decode_independent(t, r);
+      if (!d.valid)
+        return e;
+      const double eff = table_eff(c, std::get<1>(d.key), std::get<2>(d.key), std::get<3>(d.key), std::get<4>(d.key), std::get<0>(d.key));
+      e.key = d.key;
+      if (eff < 1.E-10)
+        {
+          if (quirk_input)
+            *quirk_input = true;
+          if (!quirks)
+            return e;
+          e.valid = true;
+          e.w = -1.; // do_post_normalisation sets the bin value to -1 and the caller adds it
+          return e;
+        }
+      e.valid = true;
+      e.w = 1. / eff;
+      return e;
+    }
+  // pre-normalisation (the only raw-bin events in these streams are events that the decoder rejects for every geometry)
+  const DetectionPositionPair<> dp(DetectionPosition<>(r.d1, r.r1, 0), DetectionPosition<>(r.d2, r.r2, 0), r.tp);
+  Bin ub;
+  const ProjDataInfoCylindricalNoArcCorr& u = dynamic_cast<const ProjDataInfoCylindricalNoArcCorr&>(*x.unc);
+  auto cc = [&](const Key& k) {
+    auto i = x.ringpairs.find(std::make_pair(std::get<1>(k), std::get<3>(k)));
+    auto j = x.viewcount.find(std::get<2>(k));
+    return double(i == x.ringpairs.end() ? 0 : i->second) * double(j == x.viewcount.end() ? 0 : j->second);
+  };
+  if (r.raw || u.get_bin_for_det_pos_pair(ub, dp) != Succeeded::yes)
+    {
+      if (quirk_input)
+        *quirk_input = true;
+      if (!quirks)
+        return e;
+      // get_bin_from_event returns without touching the caller's bin: Bin() with value 1
+      e.key = Key(0, 0, 0, 0, 0);
+      e.valid = true;
+      e.w = 1. / cc(e.key);
+      return e;
+    }
+  const double eff = table_eff(c, ub.segment_num(), ub.view_num(), ub.axial_pos_num(), ub.tangential_pos_num(), ub.timing_pos_num());
+  if (eff < 1.E-10)
+    return e;
+  const Decoded d = decode_independent(t, r);
+  if (!d.valid)
+    return e;
+  e.valid = true;
+  e.key = d.key;
+  e.w = 1. / (eff * cc(d.key));
+  return e;
+}
+
+static void
+add_w(HistW& h, const EvW& e, int inc)
+{
+  W& w = h[e.key];
+  w.v += e.w * inc;
+  w.mag += std::fabs(e.w);
+  w.n++;
+}
+
+static HistW
+expected_window_w(const Ctx& x, const ProjDataInfoCylindricalNoArcCorr& t, const RunCfg& c, bool use_window, long s, long e, bool quirks, bool* quirk_input)
+{
+  HistW h;
+  long cur = 0;
+  for (auto& r : x.cs.recs)
+    {
+      if (r.is_time)
+        {
+          cur = static_cast<long>(r.ms);
+          continue;
+        }
+      if (use_window && !(s <= cur && cur < e))
+        continue;
+      const EvW d = decode_w(x, t, r, c, quirks, quirk_input);
+      if (!d.valid)
+        continue;
+      const int inc = increment_of(r, c.storeP, c.storeD);
+      if (inc != 0)
+        add_w(h, d, inc);
+    }
+  return h;
+}
+
+static HistW
+expected_num_events_w(const Ctx& x, const ProjDataInfoCylindricalNoArcCorr& t, const RunCfg& c, bool quirks, bool* quirk_input)
+{
+  HistW h;
+  long total = 0;
+  for (auto& r : x.cs.recs)
+    {
+      if (total == c.num_events)
+        break;
+      if (r.is_time)
+        continue;
+      // the count is of the events that pass the range tests, whatever post-normalisation makes of them
+      bool qi = false;
+      EvW d = decode_w(x, t, r, c, quirks, &qi);
+      if (qi && quirk_input)
+        *quirk_input = true;
+      bool counted = d.valid;
+      if (c.norm == 1 && !d.valid && qi)
+        counted = true; // post-normalisation with an unusable efficiency: counted, nothing added
+      if (!counted)
+        continue;
+      const int inc = increment_of(r, c.storeP, c.storeD);
+      if (inc == 0)
+        continue;
+      if (d.valid)
+        add_w(h, d, inc);
+      total += inc;
+    }
+  return h;
+}
+
+static bool
+same_w(const HistF& got, const HistW& exp, std::string* where)
+{
+  std::set<Key> keys;
+  for (auto& kv : got)
+    keys.insert(kv.first);
+  for (auto& kv : exp)
+    keys.insert(kv.first);
+  for (auto& k : keys)
+    {
+      auto ig = got.find(k);
+      auto ie = exp.find(k);
+      const double g = ig == got.end() ? 0. : double(ig->second);
+      const W w = ie == exp.end() ? W() : ie->second;
+      const double tol = 4. * double(w.n + 3) * U24 * w.mag + 1e-30;
+      if (!(std::fabs(g - w.v) <= tol))
+        {
+          if (where)
+            {
+              std::ostringstream s;
+              s << "bin seg=" << std::get<1>(k) << " view=" << std::get<2>(k) << " ax=" << std::get<3>(k) << " tang=" << std::get<4>(k)
+                << " tof=" << std::get<0>(k) << ": stored " << g << ", expected " << w.v << " (" << w.n << " events)";
+              *where = s.str();
+            }
+          return false;
+        }
+    }
+  return true;
+}
+
+static std::string
+fmt_histf(const HistF& h)
+{
+  std::ostringstream s;
+  bool first = true;
+  for (auto& kv : h)
+    if (kv.second != 0.F)
+      {
+        if (!first)
+          s << ' ';
+        first = false;
+        s << std::get<1>(kv.first) << ',' << std::get<2>(kv.first) << ',' << std::get<3>(kv.first) << ',' << std::get<4>(kv.first) << ','
+          << std::get<0>(kv.first) << '=' << vh::hex(kv.second);
+      }
+  if (first)
+    s << '-';
+  return s.str();
+}
+
+static std::string
+fmt_resultw(const RunResult& r, int in_memory)
+{
+  if (r.err)
+    return "err";
+  std::ostringstream s;
+  s << "t=" << r.last_ms << " sim=" << r.segs_in_memory;
+  for (std::size_t k = 0; k < r.framesF.size(); ++k)
+    {
+      if (in_memory == 1 && k + 1 < r.framesF.size())
+        continue;
+      s << " | " << fmt_histf(r.framesF[k]);
+    }
+  return s.str();
+}
+
+static std::string
+norm_str(const RunCfg& c)
+{
+  std::ostringstream s;
+  s << (c.norm == 2 ? "pre" : "post") << "-normalisation salt=" << c.salt1 << (c.salt2 >= 0 ? " chained with salt=" + std::to_string(c.salt2) : std::string())
+    << " low=" << c.low;
+  return s.str();
+}
+
+// runs `c` (with normalisation), evaluates the oracle, prints op + answer if the run is as the property says
+static RunResult
+do_runw(const Ctx& x, const RunCfg& c, const std::string& what)
+{
+  shared_ptr<ProjDataInfo> tpl_after;
+  RunResult r = run_impl(x.cs.lm_pdi, x.cs.tpl, x.cs.recs, x.cs.has_delayeds, c, &tpl_after);
+  g_stat["norm_runs"]++;
+  std::string line = run_line(c);
+  line.replace(0, 3, "runw");
+  ++g_checks;
+  if (r.err)
+    {
+      oracle_fail(what + ": valid configuration rejected: " + line + " " + norm_str(c));
+      emit(line, fmt_resultw(r, c.in_memory));
+      return r;
+    }
+  const ProjDataInfoCylindricalNoArcCorr& t = dynamic_cast<const ProjDataInfoCylindricalNoArcCorr&>(*tpl_after);
+  const std::size_t nframes = std::max<std::size_t>(1, c.frames.size());
+  if (r.framesF.size() != nframes)
+    {
+      oracle_fail(what + ": wrong number of frames written: " + line);
+      r.framesF.resize(nframes);
+    }
+  bool clean = true, as_unrepaired = true, quirk_input = false;
+  std::string where;
+  for (int pass = 0; pass < 2; ++pass)
+    for (std::size_t k = 0; k < nframes; ++k)
+      {
+        if (c.in_memory == 1 && k + 1 < nframes)
+          continue;
+        HistW exp;
+        if (c.num_events != 0)
+          exp = expected_num_events_w(x, t, c, pass == 1, &quirk_input);
+        else if (c.frames.empty())
+          exp = expected_window_w(x, t, c, false, 0, 0, pass == 1, &quirk_input);
+        else
+          exp = expected_window_w(x, t, c, true, c.frames[k].first, c.frames[k].second, pass == 1, &quirk_input);
+        std::string w;
+        if (!same_w(r.framesF[k], exp, &w))
+          {
+            if (pass == 0)
+              {
+                if (clean)
+                  where = "frame " + std::to_string(k + 1) + " " + w;
+                clean = false;
+              }
+            else
+              as_unrepaired = false;
+          }
+      }
+  if (clean)
+    {
+      emit(line, fmt_resultw(r, c.in_memory));
+      g_stat["norm_runs_compared_with_model"]++;
+      return r;
+    }
+  if (as_unrepaired && quirk_input)
+    {
+      if (c.norm == 2)
+        {
+          g_stat["norm_known_pre_outside_uncompressed"]++;
+          known_candidate("lm2pd:pre-normalisation:event-rejected-by-the-decoder-is-counted-in-bin-0",
+                          "LmToProjData::get_bin_from_event with 'do pre normalisation': when the event decoder rejects the event for the "
+                          "uncompressed geometry (bin value <= 0), the function returns without touching the caller's bin, which process_data has "
+                          "initialised to Bin() with value 1: the event ('rejected for some strange reason') is counted in bin segment 0, view 0, "
+                          "axial 0, tangential 0, TOF 0 with weight 1/compression count; e.g. "
+                              + what + " " + line + " " + where);
+        }
+      else
+        {
+          g_stat["norm_known_post_low_efficiency"]++;
+          known_candidate("lm2pd:post-normalisation:efficiency-below-1e-10-adds-minus-one",
+                          "LmToProjData::do_post_normalisation sets the bin value to -1 when the post-normalisation efficiency of the bin is "
+                          "< 1e-10 (warning 'Event ignored'), but process_data does not test the value again and adds bin value x increment: every "
+                          "such prompt SUBTRACTS one count from the bin (every subtracted delayed adds one); e.g. " + what + " " + line + " "
+                              + where);
+        }
+      return r;
+    }
+  oracle_fail(what + ": stored values differ from sum over the events of increment/(efficiency x compression count): " + line + " "
+              + norm_str(c) + ": " + where);
+  emit(line, fmt_resultw(r, c.in_memory));
+  return r;
+}
+
+static bool
+bitwise_same(const RunResult& a, const RunResult& b)
+{
+  if (a.framesF.size() != b.framesF.size())
+    return false;
+  for (std::size_t k = 0; k < a.framesF.size(); ++k)
+    {
+      HistF x = a.framesF[k], y = b.framesF[k];
+      for (auto it = x.begin(); it != x.end();)
+        it = it->second == 0.F ? x.erase(it) : std::next(it);
+      for (auto it = y.begin(); it != y.end();)
+        it = it->second == 0.F ? y.erase(it) : std::next(it);
+      if (x != y)
+        return false;
+    }
+  return true;
+}
+
+static void
+run_family(vh::Rng& rng, bool thorough)
+{
+  const int ncases = thorough ? 500 : 60;
+  for (int ci = 0; ci < ncases; ++ci)
+    {
+      Ctx x;
+      static const int Ns[] = { 8, 12, 16 };
+      const int N = Ns[rng.range(0, 2)];
+      const int R = rng.range(1, 3);
+      x.N = N, x.R = R;
+      int max_tof = -1, tof_mash = 0;
+      if (rng.range(0, 2) == 0)
+        {
+          static const int tofs[][2] = { { 5, 1 }, { 5, 5 }, { 9, 3 }, { 7, 1 } };
+          const int k = rng.range(0, 3);
+          max_tof = tofs[k][0];
+          tof_mash = rng.range(0, 4) == 0 ? 0 : tofs[k][1];
+        }
+      RunCfg nc; // the normalisation of this case
+      nc.norm = ci % 2 == 0 ? 2 : 1;
+      nc.salt1 = rng.range(0, 9999);
+      nc.salt2 = rng.coin() ? rng.range(0, 9999) : -1;
+      nc.low = ci % 3 == 0 ? rng.range(4, 9) : 0;
+      // uncompressed geometry: all detector pairs (N-1 tangential positions), in a fifth of the cases the usual N/2-1
+      const bool small_fan = ci % 5 == 4;
+      const int nonarc = small_fan ? N / 2 - 1 : N - 1;
+      x.cs.scanner = make_scanner_nb(N, R, max_tof, nonarc);
+      int span = (R >= 2 && rng.range(0, 2) == 0) ? 3 : 1;
+      const int max_delta = rng.range(0, R - 1);
+      std::vector<int> mashes;
+      for (int m = 1; m <= N / 2; ++m)
+        if ((N / 2) % m == 0)
+          mashes.push_back(m);
+      const int mash = rng.coin() ? 1 : mashes[rng.range(0, static_cast<int>(mashes.size()) - 1)];
+      const int full_tang = N / 2 - 1;
+      const int num_tang = rng.range(0, 2) == 0 ? full_tang : rng.range(1, full_tang);
+      try
+        {
+          x.cs.lm_pdi = vh::make_pdi(x.cs.scanner, 1, R - 1, N / 2, full_tang, false, max_tof > 0 ? 1 : 0);
+          x.cs.tpl = vh::make_pdi(x.cs.scanner, span, max_delta, N / 2 / mash, num_tang, false, tof_mash);
+          shared_ptr<Scanner> sc(new Scanner(*x.cs.scanner));
+          x.unc.reset(ProjDataInfo::ProjDataInfoCTI(sc, 1, R - 1, N / 2, sc->get_max_num_non_arccorrected_bins(), false, 1));
+        }
+      catch (...)
+        {
+          g_stat["norm_geometry_rejected"]++;
+          continue;
+        }
+      if (!dynamic_cast<const ProjDataInfoCylindricalNoArcCorr*>(x.cs.tpl.get()) || !dynamic_cast<const ProjDataInfoCylindricalNoArcCorr*>(x.unc.get()))
+        continue;
+      const ProjDataInfoCylindricalNoArcCorr& tpl = dynamic_cast<const ProjDataInfoCylindricalNoArcCorr&>(*x.cs.tpl);
+      const int nseg = tpl.get_num_segments(), ntof = tpl.get_num_tof_poss();
+      count_compression(x, tpl);
+      g_stat["norm_cases"]++;
+      g_stat[nc.norm == 2 ? "norm_pre_cases" : "norm_post_cases"]++;
+      if (nc.salt2 >= 0)
+        g_stat["norm_chained"]++;
+      if (nc.low)
+        g_stat["norm_with_unusable_efficiencies"]++;
+      if (small_fan && nc.norm == 2)
+        g_stat["norm_pre_small_uncompressed_fan"]++;
+      // pre-normalisation: in a fifth of the cases some events are rejected by the decoder (for every geometry)
+      const bool rejected_events = nc.norm == 2 && ci % 10 == 8;
+      if (rejected_events)
+        g_stat["norm_pre_with_events_the_decoder_rejects"]++;
+      if (ntof > 1)
+        g_stat["norm_tof_templates"]++;
+
+      // ---- stream: monotone marks; detector-pair events (post-normalisation: also raw-bin events around the ranges)
+      const int nrec = rng.range(20, thorough ? 260 : 200);
+      const int tp_half = max_tof > 0 ? max_tof / 2 : 0;
+      std::vector<long> marks;
+      long now = rng.range(0, 3) == 0 ? 0 : rng.range(0, 300);
+      bool any_delayed = false;
+      const int p_time = rng.range(8, 30);
+      for (int i = 0; i < nrec; ++i)
+        {
+          Rec r;
+          if (rng.range(0, 99) < p_time && !(i == 0 && rng.coin()))
+            {
+              r.is_time = true;
+              r.ms = static_cast<unsigned long>(now);
+              marks.push_back(now);
+              x.cs.recs.push_back(r);
+              now += rng.range(0, 9) == 0 ? 0 : rng.range(1, 120);
+              continue;
+            }
+          r.prompt = rng.range(0, 3) != 0;
+          any_delayed = any_delayed || !r.prompt;
+          if (rejected_events && rng.range(0, 7) == 0)
+            {
+              r.raw = true;
+              r.rawbin = Bin(0, 0, 0, 0, 0, rng.coin() ? 0.F : -1.F);
+            }
+          else if (nc.norm == 2 || rng.range(0, 9) < 8)
+            {
+              r.d1 = rng.range(0, N - 1);
+              do
+                r.d2 = rng.range(0, N - 1);
+              while (r.d2 == r.d1);
+              r.r1 = rng.range(0, R - 1);
+              r.r2 = rng.range(0, R - 1);
+              r.tp = rng.range(-tp_half, tp_half);
+            }
+          else
+            {
+              r.raw = true;
+              const int seg = rng.range(tpl.get_min_segment_num(), tpl.get_max_segment_num());
+              const int out = rng.range(0, 9);
+              int ax = rng.range(tpl.get_min_axial_pos_num(seg), tpl.get_max_axial_pos_num(seg));
+              int tang = rng.range(tpl.get_min_tangential_pos_num(), tpl.get_max_tangential_pos_num());
+              int tof = rng.range(tpl.get_min_tof_pos_num(), tpl.get_max_tof_pos_num());
+              if (out == 0)
+                ax = tpl.get_max_axial_pos_num(seg) + 1;
+              if (out == 1)
+                tang = tpl.get_min_tangential_pos_num() - 1;
+              if (out == 2)
+                tof = tpl.get_max_tof_pos_num() + 1;
+              r.rawbin = Bin(seg, rng.range(tpl.get_min_view_num(), tpl.get_max_view_num()), ax, tang, tof, out == 4 ? 0.F : 1.F);
+            }
+          x.cs.recs.push_back(r);
+        }
+      x.cs.has_delayeds = any_delayed;
+      const long t_end = now;
+
+      // ---- ops: geometry, normalisation data of the REAL objects, stream
+      emit_cfg(tpl);
+      emit(std::string("cfg norm ") + (nc.norm == 2 ? "pre" : "post"), "ok");
+      shared_ptr<BinNormalisation> norm_obj = make_norm_obj(nc);
+      {
+        std::ostringstream s;
+        s << "cfg cc " << tpl.get_view_mashing_factor();
+        for (int seg = tpl.get_min_segment_num(); seg <= tpl.get_max_segment_num(); ++seg)
+          for (int ax = tpl.get_min_axial_pos_num(seg); ax <= tpl.get_max_axial_pos_num(seg); ++ax)
+            s << ' ' << seg << ':' << ax << ':' << tpl.get_num_ring_pairs_for_segment_axial_pos_num(seg, ax);
+        emit(s.str(), "ok");
+        // get_compression_count against the independent count
+        for (int seg = tpl.get_min_segment_num(); seg <= tpl.get_max_segment_num(); ++seg)
+          for (int ax = tpl.get_min_axial_pos_num(seg); ax <= tpl.get_max_axial_pos_num(seg); ++ax)
+            {
+              ++g_checks;
+              if (static_cast<long>(tpl.get_num_ring_pairs_for_segment_axial_pos_num(seg, ax)) != x.ringpairs[std::make_pair(seg, ax)])
+                oracle_fail("number of ring pairs of segment " + std::to_string(seg) + " axial position " + std::to_string(ax) + " differs from the count over all ring pairs");
+            }
+        for (int v = tpl.get_min_view_num(); v <= tpl.get_max_view_num(); ++v)
+          {
+            ++g_checks;
+            if (x.viewcount[v] != tpl.get_view_mashing_factor())
+              oracle_fail("view mashing factor differs from the number of uncompressed views of view " + std::to_string(v));
+          }
+      }
+      {
+        SynRecord rec(x.cs.lm_pdi);
+        std::ostringstream st, ef;
+        st << "stream";
+        ef << "cfg eff";
+        std::set<Key> seen;
+        for (auto& r : x.cs.recs)
+          {
+            rec.load(r);
+            if (rec.is_time())
+              {
+                st << " T" << rec.time().get_time_in_millisecs();
+                continue;
+              }
+            Bin bin;
+            bin.set_bin_value(1.f);
+            rec.event().get_bin(bin, tpl);
+            st << " E" << (rec.event().is_prompt() ? 'p' : 'd') << ':';
+            if (bin.get_bin_value() > 0)
+              {
+                st << bin.segment_num() << ':' << bin.view_num() << ':' << bin.axial_pos_num() << ':' << bin.tangential_pos_num() << ':' << bin.timing_pos_num();
+                const Key k(bin.timing_pos_num(), bin.segment_num(), bin.view_num(), bin.axial_pos_num(), bin.tangential_pos_num());
+                if (nc.norm == 1 && seen.insert(k).second)
+                  ef << ' ' << bin.segment_num() << ':' << bin.view_num() << ':' << bin.axial_pos_num() << ':' << bin.tangential_pos_num() << ':'
+                     << bin.timing_pos_num() << ':' << vh::hex(norm_obj->get_bin_efficiency(bin));
+              }
+            else
+              st << 'x';
+            if (nc.norm == 2)
+              {
+                Bin ub;
+                rec.event().get_bin(ub, *x.unc);
+                if (ub.get_bin_value() > 0)
+                  {
+                    const Key uk(ub.timing_pos_num(), ub.segment_num(), ub.view_num(), ub.axial_pos_num(), ub.tangential_pos_num());
+                    auto it = x.unc_ids.find(uk);
+                    if (it == x.unc_ids.end())
+                      it = x.unc_ids.insert(std::make_pair(uk, static_cast<int>(x.unc_ids.size()) + 1)).first;
+                    st << ":u" << it->second << ':' << vh::hex(norm_obj->get_bin_efficiency(ub));
+                  }
+                else
+                  st << ":ux";
+              }
+          }
+        emit(ef.str(), "ok");
+        emit(st.str(), "ok " + std::to_string(x.cs.recs.size()));
+      }
+
+      // ---- runs
+      auto pick_boundary = [&]() -> long {
+        if (!marks.empty() && rng.range(0, 3) != 0)
+          return marks[rng.range(0, static_cast<int>(marks.size()) - 1)];
+        return rng.range(0, static_cast<int>(t_end + 100));
+      };
+      RunCfg base = nc;
+      base.in_memory = 2;
+      const int sm = rng.range(0, 3);
+      base.storeP = sm != 3;
+      base.storeD = sm != 2;
+      {
+        std::set<long> bs;
+        const int nb = rng.range(2, 4);
+        for (int k = 0; k < nb + 3 && static_cast<int>(bs.size()) < nb; ++k)
+          {
+            long b = pick_boundary();
+            if (b <= 10)
+              b = rng.coin() ? 0 : 11 + rng.range(0, 50);
+            bs.insert(b);
+          }
+        std::vector<long> b(bs.begin(), bs.end());
+        if (b.size() < 2)
+          b.push_back(b.back() + 50);
+        for (std::size_t k = 0; k + 1 < b.size(); ++k)
+          if (b[k + 1] > 10)
+            base.frames.push_back(std::make_pair(b[k], b[k + 1]));
+        if (base.frames.empty())
+          base.frames.push_back(std::make_pair(b[0], std::max<long>(b[1], 11)));
+      }
+      // marks that jump over a whole frame: the class of the known finding lm2pd:frame-inside-time-mark-gap
+      if (frame_in_gap(x.cs.recs, base.frames))
+        {
+          g_stat["norm_framesets_skipped_frame_in_gap"]++;
+          base.frames.clear();
+        }
+      const RunResult ref = do_runw(x, base, "normalisation");
+      {
+        // other batch sizes: bitwise the same floats (every bin is summed in stream order in exactly one pass)
+        std::vector<std::pair<int, int>> batches;
+        batches.push_back(std::make_pair(1, ntof > 1 ? 1 : -1));
+        batches.push_back(std::make_pair(rng.range(1, nseg), ntof > 1 ? rng.range(1, ntof) : -1));
+        for (auto& sb : batches)
+          {
+            RunCfg c = base;
+            c.segs = sb.first;
+            c.tofs = sb.second;
+            c.in_memory = rng.coin() ? 2 : 1;
+            RunResult r = do_runw(x, c, "normalisation-batches");
+            ++g_checks;
+            if (!ref.err && !r.err)
+              {
+                RunResult a = ref;
+                if (c.in_memory == 1 && a.framesF.size() > 1)
+                  {
+                    a.framesF.erase(a.framesF.begin(), a.framesF.end() - 1);
+                    r.framesF.erase(r.framesF.begin(), r.framesF.end() - 1);
+                  }
+                if (!bitwise_same(a, r))
+                  oracle_fail("normalised result depends on num_segments_in_memory/num_TOF_bins_in_memory: " + run_line(c) + " " + norm_str(c));
+              }
+          }
+      }
+      if (base.frames.size() > 1 && !ref.err)
+        {
+          // frames of the partition add up to the whole interval
+          RunCfg c = base;
+          c.frames.clear();
+          c.frames.push_back(std::make_pair(base.frames.front().first, base.frames.back().second));
+          const RunResult whole = do_runw(x, c, "normalisation-whole-interval");
+          if (!whole.err && whole.framesF.size() == 1)
+            {
+              std::map<Key, W> sum;
+              for (auto& h : ref.framesF)
+                for (auto& kv : h)
+                  {
+                    W& w = sum[kv.first];
+                    w.v += kv.second;
+                    w.mag += std::fabs(kv.second);
+                    w.n += 40;
+                  }
+              ++g_checks;
+              std::string w;
+              if (!same_w(whole.framesF[0], sum, &w))
+                oracle_fail("normalised frames of a partition do not add up to the whole interval: " + run_line(base) + " " + norm_str(c) + " " + w);
+              g_stat["norm_frames_add_checks"]++;
+            }
+        }
+      {
+        // the whole stream, and num_events_to_store
+        RunCfg c = nc;
+        c.in_memory = 2;
+        c.storeP = true;
+        c.storeD = rng.coin();
+        c.segs = rng.range(0, 1) ? -1 : rng.range(1, nseg);
+        do_runw(x, c, "normalisation-no-frames");
+        long nev = 0;
+        for (auto& r : x.cs.recs)
+          nev += r.is_time ? 0 : 1;
+        RunCfg d = nc;
+        d.in_memory = 2;
+        d.storeP = true;
+        d.storeD = rng.coin();
+        d.num_events = rng.range(1, static_cast<int>(nev / 2) + 2);
+        const RunResult a = do_runw(x, d, "normalisation-num-events");
+        RunCfg d2 = d;
+        d2.segs = rng.range(1, nseg);
+        d2.tofs = ntof > 1 ? rng.range(1, ntof) : -1;
+        const RunResult b = do_runw(x, d2, "normalisation-num-events-batches");
+        ++g_checks;
+        if (!a.err && !b.err && !bitwise_same(a, b))
+          oracle_fail("normalised num_events_to_store result depends on the batch sizes: " + run_line(d2) + " " + norm_str(d2));
+      }
+    }
+}
+} // namespace nrm
+
+// =============================================================================================
+// FAMILY 4 — other event classes and REAL list-mode files
+//   (a) events of a cylindrical scanner that only know their LOR (library get_LOR(), ListEvent::get_bin = LOR path);
+//   (b) events of a BlocksOnCylindrical scanner (ProjDataInfoGenericNoArcCorr / ProjDataInfoBlocksOnCylindricalNoArcCorr templates),
+//       with detector indices or with their LOR only;
+//   (c) a SAFIR coincidence list-mode FILE written from the event list (32 byte signature, 64 bit records), a template
+//       projection data file and a parameter file, read through read_from_file<ListModeData> (SAFIRCListmodeInputFileFormat ->
+//       CListModeDataSAFIR<CListRecordSAFIR<CListEventDataSAFIR>>): the real bit-field decoder, get_next_record,
+//       save_get_position/set_get_position on the file; without crystal map (detector indices -> get_bin_for_det_pos_pair) and with a
+//       crystal map file written from the scanner's own detector map (coordinates -> LOR -> ProjDataInfo::get_bin).
+//   ops    : cfg tpl / stream (as decoded by the event class resp. the real file reader) / run
+//   oracle : (a) of family 1 (histogram == independent count with get_bin_for_det_pos_pair), batch sizes, frames add; the records the
+//            file reader delivers == the event list (times, prompt/delayed); the file's histograms == those of the synthetic stream.
+// =============================================================================================
+namespace evk
+{
+static shared_ptr<Scanner>
+blocks_scanner(int nblk, int cpb, int R)
+{
+  const int N = nblk * cpb;
+  const float cs = 8.F;
+  const float rad = cs * cpb / (2 * std::tan(3.14159265F / nblk)) * 1.02F;
+  shared_ptr<Scanner> s(new Scanner(Scanner::User_defined_scanner, std::string("verif_blocks"), N, R, N / 2 - 1, N / 2 - 1, rad, 2.F, 4.F, 4.F, 0.F, 1, 1,
+                                    R, cpb, 1, 1, 1, 0.1F, 511.F, static_cast<short>(-1), -1.F, -1.F, "BlocksOnCylindrical", 4.F, cs, 4.F * R,
+                                    cs * cpb));
+  return s;
+}
+
+// SAFIR records (CListRecordSAFIR.h): little-endian bit fields
+//   event: ringA:8 ringB:8 detA:16 detB:16 layerA:4 layerB:4 reserved:6 isDelayed:1 type:1(=0)
+//   time : time:48 reserved:15 type:1(=1)
+static uint64_t
+safir_event(int ringA, int ringB, int detA, int detB, bool delayed)
+{
+  return uint64_t(ringA & 0xff) | (uint64_t(ringB & 0xff) << 8) | (uint64_t(detA & 0xffff) << 16) | (uint64_t(detB & 0xffff) << 32)
+         | (uint64_t(delayed ? 1 : 0) << 62);
+}
+
+static uint64_t
+safir_time(uint64_t ms)
+{
+  return (ms & ((uint64_t(1) << 48) - 1)) | (uint64_t(1) << 63);
+}
+
+static void
+write_safir(const std::string& name, const std::vector<Rec>& recs, const char* signature)
+{
+  std::ofstream f(name.c_str(), std::ios::binary);
+  char hdr[32];
+  std::memset(hdr, 0, 32);
+  std::strcpy(hdr, signature);
+  f.write(hdr, 32);
+  for (auto& r : recs)
+    {
+      // detector 1 of the event list is "A"
+      const uint64_t w = r.is_time ? safir_time(r.ms) : safir_event(r.r1, r.r2, r.d1, r.d2, !r.prompt);
+      unsigned char b[8];
+      for (int k = 0; k < 8; ++k)
+        b[k] = static_cast<unsigned char>((w >> (8 * k)) & 0xff);
+      f.write(reinterpret_cast<const char*>(b), 8);
+    }
+}
+
+static bool
+in_template(const ProjDataInfo& t, const Bin& b)
+{
+  return b.get_bin_value() > 0 && b.segment_num() >= t.get_min_segment_num() && b.segment_num() <= t.get_max_segment_num()
+         && b.view_num() >= t.get_min_view_num() && b.view_num() <= t.get_max_view_num()
+         && b.tangential_pos_num() >= t.get_min_tangential_pos_num() && b.tangential_pos_num() <= t.get_max_tangential_pos_num()
+         && b.axial_pos_num() >= t.get_min_axial_pos_num(b.segment_num()) && b.axial_pos_num() <= t.get_max_axial_pos_num(b.segment_num())
+         && b.timing_pos_num() >= t.get_min_tof_pos_num() && b.timing_pos_num() <= t.get_max_tof_pos_num();
+}
+
+// the event class's bin against "the bin that the data geometry assigns to the event's detector pair"
+static void
+glue_check(const ListEvent& ev, const ProjDataInfo& tpl, const Rec& r, const std::string& what)
+{
+  Bin b;
+  b.set_bin_value(1.f);
+  ev.get_bin(b, tpl);
+  const Decoded d = decode_independent(tpl, r);
+  const bool in1 = in_template(tpl, b);
+  ++g_checks;
+  if (in1 != d.valid
+      || (in1 && Key(b.timing_pos_num(), b.segment_num(), b.view_num(), b.axial_pos_num(), b.tangential_pos_num()) != d.key))
+    {
+      std::ostringstream s;
+      s << what << ": the event's bin differs from the bin of its detector pair " << r.d1 << "," << r.r1 << " " << r.d2 << "," << r.r2
+        << " tof " << r.tp << ": event " << (in1 ? "" : "(outside) ") << b.segment_num() << "," << b.view_num() << "," << b.axial_pos_num() << ","
+        << b.tangential_pos_num() << "," << b.timing_pos_num() << " detector pair " << (d.valid ? "" : "(outside) ") << std::get<1>(d.key) << ","
+        << std::get<2>(d.key) << "," << std::get<3>(d.key) << "," << std::get<4>(d.key) << "," << std::get<0>(d.key);
+      oracle_fail(s.str());
+    }
+}
+
+static bool
+same_frames(const RunResult& a, const RunResult& b)
+{
+  if (a.err || b.err || a.frames.size() != b.frames.size())
+    return false;
+  for (std::size_t k = 0; k < a.frames.size(); ++k)
+    if (!same_hist(a.frames[k], b.frames[k]))
+      return false;
+  return true;
+}
+
+static void
+run_family(vh::Rng& rng, bool thorough)
+{
+  const int ncases = thorough ? 400 : 48;
+  const std::string dir = g_tmpdir;
+  for (int ci = 0; ci < ncases; ++ci)
+    {
+      Case cs;
+      const int variant = ci % 4; // 0: cylindrical, LOR only  1: blocks, synthetic  2: SAFIR file  3: SAFIR file + crystal map
+      int N = 8, R = 1, max_tof = -1;
+      int lm_kind = 1;
+      if (variant == 0)
+        {
+          static const int Ns[] = { 8, 12, 16, 20 };
+          N = Ns[rng.range(0, 3)];
+          R = rng.range(1, 4);
+          // a TOF scanner with a non-TOF template: the LOR has no TOF information
+          max_tof = rng.range(0, 3) == 0 ? 5 : -1;
+          cs.scanner = vh::make_scanner(N, R, max_tof);
+          lm_kind = 1;
+        }
+      else
+        {
+          static const int shapes[][2] = { { 4, 2 }, { 6, 2 }, { 4, 3 }, { 8, 2 }, { 4, 4 } };
+          const int k = rng.range(0, 4);
+          N = shapes[k][0] * shapes[k][1];
+          R = rng.range(1, 3);
+          try
+            {
+              cs.scanner = blocks_scanner(shapes[k][0], shapes[k][1], R);
+              cs.scanner->set_up();
+            }
+          catch (...)
+            {
+              g_stat["evk_geometry_rejected"]++;
+              continue;
+            }
+          lm_kind = variant == 1 ? (rng.coin() ? 2 : 3) : 2;
+        }
+      const int full_tang = std::max(1, N / 2 - 1);
+
+      // ---- stream: detector pairs only, monotone marks
+      const int nrec = rng.range(10, thorough ? 220 : 160);
+      const int tp_half = max_tof > 0 ? max_tof / 2 : 0;
+      std::vector<long> marks;
+      long now = rng.range(0, 3) == 0 ? 0 : rng.range(0, 400);
+      bool any_delayed = false;
+      const int p_time = rng.range(8, 35);
+      for (int i = 0; i < nrec; ++i)
+        {
+          Rec r;
+          if (rng.range(0, 99) < p_time && !(i == 0 && rng.coin()))
+            {
+              r.is_time = true;
+              r.ms = static_cast<unsigned long>(now);
+              marks.push_back(now);
+              cs.recs.push_back(r);
+              now += rng.range(0, 9) == 0 ? 0 : rng.range(1, 120);
+              if (variant >= 2 && rng.range(0, 30) == 0)
+                now += 5000000000L; // beyond 32 bits: the time field has 48
+              continue;
+            }
+          r.prompt = rng.range(0, 3) != 0;
+          any_delayed = any_delayed || !r.prompt;
+          r.d1 = rng.range(0, N - 1);
+          do
+            r.d2 = rng.range(0, N - 1);
+          while (r.d2 == r.d1);
+          r.r1 = rng.range(0, R - 1);
+          r.r2 = rng.range(0, R - 1);
+          r.tp = rng.range(-tp_half, tp_half);
+          cs.recs.push_back(r);
+        }
+      cs.has_delayeds = any_delayed;
+      const long t_end = now;
+
+      // ---- files (variants 2, 3) and the geometry of the list-mode data
+      std::vector<std::string> files;
+      std::string parname, safirname;
+      shared_ptr<ListModeData> file_lm;
+      bool ok = true;
+      try
+        {
+          if (variant >= 2)
+            {
+              const std::string base = dir + "/safir" + std::to_string(ci);
+              shared_ptr<ExamInfo> ei(new ExamInfo);
+              ei->imaging_modality = ImagingModality::PT;
+              shared_ptr<ProjDataInfo> file_pdi = vh::make_pdi(cs.scanner, 1, R - 1, N / 2, full_tang, false, 0);
+              {
+                ProjDataInterfile pd(ei, file_pdi, base + "_tpl.hs");
+              }
+              files.push_back(base + "_tpl.hs");
+              files.push_back(base + "_tpl.s");
+              write_safir(base + ".clm.safir", cs.recs, rng.coin() ? "SAFIR CListModeData" : "MUPET CListModeData");
+              files.push_back(base + ".clm.safir");
+              parname = base + ".par";
+              files.push_back(parname);
+              std::ofstream par(parname.c_str());
+              par << "CListModeDataSAFIR Parameters:=\nlistmode data filename:= " << base << ".clm.safir\ntemplate projection data filename:= " << base
+                  << "_tpl.hs\n";
+              if (variant == 3)
+                {
+                  // crystal map: ring <tab> detector <tab> layer <tab> x <tab> y <tab> z, from the scanner's own detector map
+                  std::ofstream m((base + "_map.txt").c_str());
+                  files.push_back(base + "_map.txt");
+                  m.precision(9);
+                  for (int ring = 0; ring < R; ++ring)
+                    for (int det = 0; det < N; ++det)
+                      {
+                        const CartesianCoordinate3D<float> c = cs.scanner->get_coordinate_for_det_pos(DetectionPosition<>(det, ring, 0));
+                        m << ring << "\t" << det << "\t0\t" << c.x() << "\t" << c.y() << "\t" << c.z() << "\n";
+                      }
+                  par << "crystal map filename:= " << base << "_map.txt\n";
+                }
+              par << "END CListModeDataSAFIR Parameters:=\n";
+              par.close();
+              // without crystal map the class is constructed directly (CListModeDataSAFIR(file, proj_data_info)): the registered
+              // SAFIRCListmodeInputFileFormat keeps the crystal map of the file read before (see the history check below)
+              if (variant == 2)
+                {
+                  safirname = base + ".clm.safir";
+                  file_lm.reset(new CListModeDataSAFIR<CListRecordSAFIR<CListEventDataSAFIR>>(safirname, file_pdi));
+                }
+              else
+                file_lm = read_from_file<ListModeData>(parname);
+              // the geometry of the file is the geometry of everything else in this case
+              cs.scanner.reset(new Scanner(*file_lm->get_proj_data_info_sptr()->get_scanner_ptr()));
+              cs.lm_pdi = file_lm->get_proj_data_info_sptr()->create_shared_clone();
+            }
+          else
+            cs.lm_pdi = vh::make_pdi(cs.scanner, 1, R - 1, N / 2, full_tang, false, 0);
+          // template
+          int span = rng.range(0, 2) == 0 && R >= 2 ? 3 : 1;
+          const int max_delta = span == 3 ? rng.range(1, R - 1) : rng.range(0, R - 1);
+          int views = N / 2;
+          if (variant == 0 && rng.coin())
+            {
+              std::vector<int> mashes;
+              for (int m = 1; m <= N / 2; ++m)
+                if ((N / 2) % m == 0)
+                  mashes.push_back(m);
+              views = N / 2 / mashes[rng.range(0, static_cast<int>(mashes.size()) - 1)];
+            }
+          const int num_tang = rng.range(0, 2) == 0 ? full_tang : rng.range(1, full_tang);
+          cs.tpl = vh::make_pdi(cs.scanner, span, max_delta, views, num_tang, false, 0);
+        }
+      catch (std::exception& e)
+        {
+          if (std::getenv("C14_DEBUG"))
+            std::fprintf(g_orc, "DEBUG evk case %d variant %d: %s\n", ci, variant, e.what());
+          ok = false;
+        }
+      catch (...)
+        {
+          ok = false;
+        }
+      if (!ok || !cs.tpl)
+        {
+          g_stat["evk_geometry_rejected"]++;
+          for (auto& f : files)
+            ::unlink(f.c_str());
+          continue;
+        }
+      const ProjDataInfo& tpl = *cs.tpl;
+      const int nseg = tpl.get_num_segments();
+      g_stat["evk_cases"]++;
+      g_stat[variant == 0 ? "evk_cylindrical_lor_only" : (variant == 1 ? (lm_kind == 2 ? "evk_blocks_detector_pairs" : "evk_blocks_lor_only")
+                                                                       : (variant == 2 ? "evk_safir_file" : "evk_safir_file_with_crystal_map"))]++;
+
+      // ---- the event class's bins against the detector-pair geometry; the file's records against the event list
+      std::string stream;
+      if (variant >= 2)
+        {
+          shared_ptr<ListRecord> rec = file_lm->get_empty_record_sptr();
+          std::ostringstream s;
+          s << "stream";
+          std::size_t k = 0;
+          bool same = true;
+          while (file_lm->get_next_record(*rec) == Succeeded::yes)
+            {
+              if (k >= cs.recs.size())
+                {
+                  same = false;
+                  break;
+                }
+              const Rec& r = cs.recs[k++];
+              if (rec->is_time())
+                {
+                  same = same && r.is_time && rec->time().get_time_in_millisecs() == r.ms && !rec->is_event();
+                  s << " T" << rec->time().get_time_in_millisecs();
+                  continue;
+                }
+              same = same && !r.is_time && rec->is_event() && rec->event().is_prompt() == r.prompt;
+              if (!r.is_time)
+                glue_check(rec->event(), tpl, r, variant == 2 ? "SAFIR file" : "SAFIR file with crystal map");
+              Bin bin;
+              bin.set_bin_value(1.f);
+              rec->event().get_bin(bin, tpl);
+              s << " E" << (rec->event().is_prompt() ? 'p' : 'd') << ':';
+              if (bin.get_bin_value() > 0)
+                s << bin.segment_num() << ':' << bin.view_num() << ':' << bin.axial_pos_num() << ':' << bin.tangential_pos_num() << ':'
+                  << bin.timing_pos_num();
+              else
+                s << 'x';
+            }
+          ++g_checks;
+          if (!same || k != cs.recs.size())
+            oracle_fail("SAFIR file: the records the reader delivers differ from the event list written (record " + std::to_string(k) + " of "
+                        + std::to_string(cs.recs.size()) + ")");
+          // reset(): the same records again
+          ++g_checks;
+          if (file_lm->reset() != Succeeded::yes || file_lm->get_next_record(*rec) != Succeeded::yes
+              || rec->is_time() != cs.recs[0].is_time)
+            oracle_fail("SAFIR file: reset() does not go back to the first record");
+          stream = s.str();
+          file_lm.reset();
+        }
+      else
+        {
+          shared_ptr<SynRecordBase> rec = make_syn_record(lm_kind, cs.lm_pdi);
+          for (auto& r : cs.recs)
+            if (!r.is_time)
+              {
+                rec->load(r);
+                glue_check(rec->event(), tpl, r, variant == 0 ? "cylindrical LOR-only event" : (lm_kind == 2 ? "blocks detector-pair event" : "blocks LOR-only event"));
+              }
+          stream = stream_line(tpl, cs.lm_pdi, cs.recs, lm_kind);
+        }
+      emit_cfg(tpl);
+      emit(stream, "ok " + std::to_string(cs.recs.size()));
+
+      // ---- runs
+      auto pick_boundary = [&]() -> long {
+        if (!marks.empty() && rng.range(0, 3) != 0)
+          return marks[rng.range(0, static_cast<int>(marks.size()) - 1)];
+        return rng.range(0, static_cast<int>(std::min<long>(t_end, 100000) + 200));
+      };
+      RunCfg base;
+      base.lm_kind = lm_kind;
+      base.lm_file = variant == 3 ? parname : std::string();
+      base.lm_safir = safirname;
+      base.in_memory = 2;
+      const int sm = rng.range(0, 3);
+      base.storeP = sm != 3;
+      base.storeD = sm != 2;
+      {
+        std::set<long> bs;
+        const int nb = rng.range(2, 4);
+        for (int k = 0; k < nb + 3 && static_cast<int>(bs.size()) < nb; ++k)
+          {
+            long b = pick_boundary();
+            if (b <= 10)
+              b = rng.coin() ? 0 : 11 + rng.range(0, 50);
+            bs.insert(b);
+          }
+        if (rng.range(0, 2) == 0)
+          bs.insert(0);
+        std::vector<long> b(bs.begin(), bs.end());
+        if (b.size() < 2)
+          b.push_back(b.back() + 50);
+        for (std::size_t k = 0; k + 1 < b.size(); ++k)
+          if (b[k + 1] > 10)
+            base.frames.push_back(std::make_pair(b[k], b[k + 1]));
+        if (base.frames.empty())
+          base.frames.push_back(std::make_pair(b[0], std::max<long>(b[1], 11)));
+      }
+      const bool gap = frame_in_gap(cs.recs, base.frames);
+      if (gap)
+        g_stat["evk_framesets_with_frame_in_gap"]++;
+      const RunResult ref = do_run(cs, base, true, "event-kinds");
+      // every num_segments_in_memory: several passes, i.e. save_get_position / set_get_position (on the real file for variants 2, 3)
+      for (int sgs = 1; sgs <= nseg; ++sgs)
+        {
+          if (sgs > 3 && sgs < nseg && !thorough)
+            continue;
+          RunCfg c = base;
+          c.segs = sgs;
+          c.in_memory = (variant == 0 && rng.coin()) ? 0 : 2; // Interfile output: cylindrical templates only
+          const RunResult r = do_run(cs, c, true, "event-kinds-batches");
+          ++g_checks;
+          if (!ref.err && !r.err && !same_frames(ref, r))
+            oracle_fail("event kinds / real file: result depends on num_segments_in_memory: " + run_line(c));
+          g_stat["evk_batch_runs"]++;
+        }
+      if (variant >= 2)
+        {
+          // the same runs on the synthetic stream of the same events: same histograms
+          RunCfg c = base;
+          c.lm_file.clear();
+          c.lm_safir.clear();
+          c.lm_kind = 2;
+          const RunResult syn = run_impl(cs.lm_pdi, cs.tpl, cs.recs, cs.has_delayeds, c);
+          ++g_checks;
+          if (!ref.err && !same_frames(ref, syn))
+            oracle_fail("SAFIR file: histograms differ from those of the synthetic stream of the same events: " + run_line(c));
+          g_stat["evk_file_against_synthetic"]++;
+        }
+      if (base.frames.size() > 1 && !ref.err)
+        {
+          bool partition = true;
+          for (std::size_t k = 0; k + 1 < base.frames.size(); ++k)
+            partition = partition && base.frames[k].second == base.frames[k + 1].first;
+          if (partition)
+            {
+              RunCfg c = base;
+              c.frames.clear();
+              c.frames.push_back(std::make_pair(base.frames.front().first, base.frames.back().second));
+              c.segs = rng.range(0, 1) ? -1 : rng.range(1, nseg);
+              const RunResult whole = do_run(cs, c, !gap, "event-kinds-whole-interval");
+              if (!whole.err && !gap)
+                {
+                  Hist sum;
+                  for (auto& h : ref.frames)
+                    sum = add_hist(sum, h);
+                  ++g_checks;
+                  if (!same_hist(sum, whole.frames[0]))
+                    oracle_fail("event kinds / real file: frames of a partition do not add up to the whole interval: " + run_line(base));
+                  g_stat["evk_frames_add_checks"]++;
+                }
+            }
+        }
+      {
+        RunCfg c;
+        c.lm_kind = lm_kind;
+        c.lm_file = base.lm_file;
+        c.lm_safir = base.lm_safir;
+        c.in_memory = 2;
+        c.storeD = rng.coin();
+        c.segs = rng.range(0, 1) ? -1 : rng.range(1, nseg);
+        do_run(cs, c, true, "event-kinds-no-frames");
+        long nev = 0;
+        for (auto& r : cs.recs)
+          nev += r.is_time ? 0 : 1;
+        RunCfg d = c;
+        d.segs = -1;
+        d.num_events = rng.range(1, static_cast<int>(nev / 2) + 2);
+        const RunResult a = do_run(cs, d, true, "event-kinds-num-events");
+        RunCfg d2 = d;
+        d2.segs = rng.range(1, nseg);
+        const RunResult b = do_run(cs, d2, true, "event-kinds-num-events-batches");
+        ++g_checks;
+        if (!a.err && !b.err && !same_frames(a, b))
+          oracle_fail("event kinds / real file: num_events_to_store result depends on the batch sizes: " + run_line(d2));
+      }
+      if (variant == 3)
+        {
+          // history of the file reader: a file WITH a crystal map (here: a map that is rotated by one crystal) has been read, then a
+          // file WITHOUT crystal map is read through read_from_file: its events must be decoded with the scanner's own detectors
+          const std::string base2 = dir + "/safir" + std::to_string(ci);
+          try
+            {
+              {
+                std::ofstream m((base2 + "_map2.txt").c_str());
+                files.push_back(base2 + "_map2.txt");
+                m.precision(9);
+                for (int ring = 0; ring < R; ++ring)
+                  for (int det = 0; det < N; ++det)
+                    {
+                      const CartesianCoordinate3D<float> c = cs.scanner->get_coordinate_for_det_pos(DetectionPosition<>((det + 1) % N, ring, 0));
+                      m << ring << "\t" << det << "\t0\t" << c.x() << "\t" << c.y() << "\t" << c.z() << "\n";
+                    }
+              }
+              {
+                std::ofstream par((base2 + "_b.par").c_str());
+                files.push_back(base2 + "_b.par");
+                par << "CListModeDataSAFIR Parameters:=\nlistmode data filename:= " << base2 << ".clm.safir\ntemplate projection data filename:= "
+                    << base2 << "_tpl.hs\ncrystal map filename:= " << base2 << "_map2.txt\nEND CListModeDataSAFIR Parameters:=\n";
+              }
+              {
+                std::ofstream par((base2 + "_c.par").c_str());
+                files.push_back(base2 + "_c.par");
+                par << "CListModeDataSAFIR Parameters:=\nlistmode data filename:= " << base2 << ".clm.safir\ntemplate projection data filename:= "
+                    << base2 << "_tpl.hs\nEND CListModeDataSAFIR Parameters:=\n";
+              }
+              shared_ptr<ListModeData> with_map(read_from_file<ListModeData>(base2 + "_b.par"));
+              with_map.reset();
+              bool same = true;
+              std::string herr;
+              try
+                {
+                  shared_ptr<ListModeData> no_map(read_from_file<ListModeData>(base2 + "_c.par"));
+                  shared_ptr<ListRecord> rec = no_map->get_empty_record_sptr();
+                  std::size_t k = 0;
+                  while (same && no_map->get_next_record(*rec) == Succeeded::yes && k < cs.recs.size())
+                    {
+                      const Rec& r = cs.recs[k++];
+                      if (r.is_time || !rec->is_event())
+                        continue;
+                      Bin b;
+                      b.set_bin_value(1.f);
+                      rec->event().get_bin(b, tpl);
+                      const Decoded d = decode_independent(tpl, r);
+                      same = in_template(tpl, b) == d.valid
+                             && (!d.valid || Key(b.timing_pos_num(), b.segment_num(), b.view_num(), b.axial_pos_num(), b.tangential_pos_num()) == d.key);
+                    }
+                }
+              catch (...)
+                {
+                  herr = "exception";
+                }
+              ++g_checks;
+              g_stat["evk_reader_histories"]++;
+              if (!same || !herr.empty())
+                {
+                  g_stat["evk_known_reader_keeps_crystal_map"]++;
+                  known_candidate("safir-reader:crystal-map-of-the-previous-file-is-kept",
+                                  "SAFIRCListmodeInputFileFormat (the registered object that read_from_file<ListModeData> uses) never resets its "
+                                  "parsing variables: after a parameter file WITH 'crystal map filename' has been read, a parameter file WITHOUT that key "
+                                  "is read with the crystal map of the earlier file (error if that file is gone; otherwise the events are binned "
+                                  "through the other file's crystal coordinates, e.g. a map rotated by one crystal moves every event by one view); "
+                                  "lor_randomization_sigma is kept in the same way and is uninitialised for the first file");
+                }
+            }
+          catch (...)
+            {
+              ++g_checks;
+              oracle_fail("SAFIR file: reading the same list-mode file with another crystal map failed");
+            }
+        }
+      for (auto& f : files)
+        ::unlink(f.c_str());
+    }
+}
+} // namespace evk
+
 int
 main(int argc, char** argv)
 {
@@ -2000,8 +3462,11 @@ main(int argc, char** argv)
     ::mkdir(g_tmpdir.c_str(), 0777);
   }
   // LmToProjData reports progress on cerr/cout
-  std::freopen("/dev/null", "w", stderr);
-  std::freopen("/dev/null", "w", stdout);
+  if (!std::getenv("C14_DEBUG"))
+    {
+      std::freopen("/dev/null", "w", stderr);
+      std::freopen("/dev/null", "w", stdout);
+    }
 
   // ------------------------------------------------------------------ fixed reproduction of the finding
   {
@@ -2070,7 +3535,7 @@ main(int argc, char** argv)
   }
 
   // ------------------------------------------------------------------ generated cases
-  const int ncases = only == "lmobj" ? 0 : (thorough ? 2000 : 240);
+  const int ncases = (only != "" && only != "hist") ? 0 : (thorough ? 2000 : 240);
   for (int ci = 0; ci < ncases; ++ci)
     {
       Case cs;
@@ -2450,10 +3915,24 @@ main(int argc, char** argv)
     }
 
   // ------------------------------------------------------------------ family 2: the list-mode objective function
-  if (only != "hist")
+  if (only == "" || only == "lmobj")
     {
       vh::Rng rng2(std::strtoull(argv[1], nullptr, 10) * 2654435761ULL + 1414);
       lmo::run_family(rng2, thorough);
+    }
+
+  // ------------------------------------------------------------------ family 3: normalisation in LmToProjData
+  if (only == "" || only == "norm")
+    {
+      vh::Rng rng3(std::strtoull(argv[1], nullptr, 10) * 40503ULL + 141403);
+      nrm::run_family(rng3, thorough);
+    }
+
+  // ------------------------------------------------------------------ family 4: other event classes, real list-mode files
+  if (only == "" || only == "events")
+    {
+      vh::Rng rng4(std::strtoull(argv[1], nullptr, 10) * 69069ULL + 141404);
+      evk::run_family(rng4, thorough);
     }
 
   std::fprintf(g_orc, "STATS");
